@@ -140,6 +140,7 @@ package semver
 //@   property C01
 
 //@ lemma compare.semver.antisym
+//@   noread Version.build Version.str
 //@   vars a, b *Version
 //@   unfold compare
 //@   requires plain(a) && plain(b) && sameSys(a, b)
@@ -183,6 +184,7 @@ package semver
 //@   property C01
 
 //@ lemma compare.gem.antisym
+//@   noread Version.build Version.str
 //@   vars a, b *Version
 //@   unfold compare (*gemExtension).compare
 //@   requires gem(a) && gem(b)
@@ -253,6 +255,7 @@ package semver
 //@   property C01
 
 //@ lemma compare.pypi.antisym
+//@   noread Version.build Version.str
 //@   vars a, b *Version
 //@   unfold compare (*pep440Extension).compare
 //@   requires pypi(a) && pypi(b)
@@ -302,6 +305,7 @@ package semver
 //@   property C01
 
 //@ lemma compare.maven.antisym
+//@   noread Version.build Version.str
 //@   vars a, b *Version
 //@   unfold compare (*mavenExtension).compare
 //@   requires mvn(a) && mvn(b)
@@ -389,3 +393,11 @@ package semver
 //@   tier thorough
 //@   property C01
 
+
+// ---------------------------------------------------------------------------
+// C04: loop invariants and preconditions that make the implicit panic sites
+// (index, slice, nil, type assertion) of the parsers provable.
+
+//@ func System.token
+//@   loop 1
+//@     invariant start <= i && i <= len(str) && 0 <= start
